@@ -435,6 +435,20 @@ let po_line = function
           else
             let (p', w) = p_alloc p (nat n) in
             po := Some p'; "p=1 z=1" ^ po_where w ^ po_state p'
+        | ("allocbig" | "callocbig" | "strndupbig"), [n] ->
+          (* size_t requests near SIZE_MAX (UT/PoolBig.v); the overflow guard of fixes/cont-pool-alloc-size-wrap.diff is modelled
+             when VERIF_C18_JUDGE_POOL_WRAP=1, the unguarded code otherwise *)
+          let guard = (try Sys.getenv "VERIF_C18_JUDGE_POOL_WRAP" = "1" with Not_found -> false) in
+          let z = z_of_string n in
+          let (p', r) = (match op with
+            | "allocbig" -> p_alloc_z guard p z
+            | "callocbig" -> let ((p', r), _) = p_calloc_z guard p z in (p', r)
+            | _ -> let ((p', r), _) = p_strndup_z guard p z in (p', r)) in
+          po := Some p';
+          (match r with
+           | ZNull -> "p=0 unit=-1"
+           | ZZero (u, off) -> if p'.p_units = [] then "p=0 unit=-1" else "p=1" ^ po_where (u, off)
+           | ZOk w -> "p=1" ^ po_where w) ^ po_state p'
         | "strdup", [h] ->
           let (p', w) = p_strndup p (nat (hexlen h)) in
           po := Some p'; "rc=0 v=" ^ h ^ po_where w ^ po_state p'
